@@ -408,38 +408,50 @@ def d5_field_diff(chk, repo):
     sts = [s for s in walk_stmts(inner.body) if isinstance(s, ast.Assign) and isinstance(s.targets[0], ast.Subscript)]
     ok = False
     det = "no store in the component loop"
-    if len(sts) == 1:
+
+    def line_rule(x, wname):
+        """the per-line load / store as seen by evaluator view x (the rules' view, or the exact view in which a two-armed
+        `if` and a conditional expression are one gated value) -> (ok, description)"""
         st = sts[0]
-        idx = v.ev._index(st.targets[0].slice, v.cfg.node(st), None)
-        val = v.term(st.value, at=st)
-        comp = each(v, v.spec("range(W.nvdim)", env=env))
-        # index evaluated in subscript mode keeps tuple()/list(): build the expectation the same way
-        line = v.ctx.mk(("store",), (v.spec("list(i)", env={"i": each(v, it)}), env["d"], v.spec("slice(None)")))
-        saved = v.ev._keep_seq
-        v.ev._keep_seq = True
-        try:
-            e2 = dict(env, line=line, comp=comp)
-            want_idx = v.spec("tuple([*line, comp])", env=e2)
-            vmask = v.spec("(W.valid if restrict2valid else np.ones_like(W.valid, dtype=bool))[tuple(line)]", env=e2)
-            load = v.spec("W.array[tuple([*line, comp])]", env=e2)
-        finally:
-            v.ev._keep_seq = saved
-        want_val = v.spec("_split_diff_combine(load, vmask, order, W.mesh.cell[d])", env=dict(env, load=load, vmask=vmask))
-        ok = v.eq(idx, want_idx) and v.eq(val, want_val)
-        if not ok:
-            # the same line address written as a splice: (*i[:d], slice(None), *i[d + 1:]) is list(i) with entry d replaced
-            v.ev._keep_seq = True
+        Wx = local_term(x, wname, outer)
+        envx = {"W": Wx, "d": x.spec("self.mesh.region._dim2index(direction)")}
+        itx = x.term(outer.iter, at=outer)
+        idx = x.ev._index(st.targets[0].slice, x.cfg.node(st), None)
+        val = x.term(st.value, at=st)
+        comp = each(x, x.spec("range(W.nvdim)", env=envx))
+        saved = x.ev._keep_seq
+        found = False
+        listed = x.spec("list(i)", env={"i": each(x, itx)})        # (outside subscript mode, as the code's own list(idx) is)
+        # the line address: list(i) with entry d replaced by slice(None), or the same written as a splice
+        for form in ("store", "splice"):
+            x.ev._keep_seq = True
             try:
-                e3 = dict(env, i=each(v, it), comp=comp)
-                e3["line"] = v.spec("(*i[:d], slice(None), *i[d + 1:])", env=e3)
-                want_idx = v.spec("(*line, comp)", env=e3)
-                vmask = v.spec("(W.valid if restrict2valid else np.ones_like(W.valid, dtype=bool))[line]", env=e3)
-                load = v.spec("W.array[(*line, comp)]", env=e3)
+                e2 = dict(envx, i=each(x, itx), comp=comp)
+                if form == "store":
+                    e2["line"] = x.ctx.mk(("store",), (listed, envx["d"], x.spec("slice(None)")))
+                    want_idx = x.spec("tuple([*line, comp])", env=e2)
+                    vmask = x.spec("(W.valid if restrict2valid else np.ones_like(W.valid, dtype=bool))[tuple(line)]", env=e2)
+                    load = x.spec("W.array[tuple([*line, comp])]", env=e2)
+                else:
+                    e2["line"] = x.spec("(*i[:d], slice(None), *i[d + 1:])", env=e2)
+                    want_idx = x.spec("(*line, comp)", env=e2)
+                    vmask = x.spec("(W.valid if restrict2valid else np.ones_like(W.valid, dtype=bool))[line]", env=e2)
+                    load = x.spec("W.array[(*line, comp)]", env=e2)
             finally:
-                v.ev._keep_seq = saved
-            want_val = v.spec("_split_diff_combine(load, vmask, order, W.mesh.cell[d])", env=dict(env, load=load, vmask=vmask))
-            ok = v.eq(idx, want_idx) and v.eq(val, want_val)
-        det = f"out[{v.show(idx)[:120]}] = {v.show(val)[:260]}"
+                x.ev._keep_seq = saved
+            want_val = x.spec("_split_diff_combine(load, vmask, order, W.mesh.cell[d])", env=dict(envx, load=load, vmask=vmask))
+            found = found or (x.eq(idx, want_idx) and x.eq(val, want_val))
+        return found, f"out[{x.show(idx)[:120]}] = {x.show(val)[:260]}"
+
+    if len(sts) == 1:
+        ok, det = line_rule(v, wf[1])
+        if not ok:
+            vx = FV(repo, "field.Field.diff")
+            vx.ev.exact = True
+            try:
+                ok = line_rule(vx, wf[1])[0]
+            except AnalysisError:
+                ok = False
     chk.ob("field.Field.diff::line-load-store", ok, "C04.D5",
            f"{det}; expected out[line, comp] = _split_diff_combine(W.array[line, comp], mask[line], order, W.mesh.cell[axis]) with "
            "line = the plane index with slice(None) at the direction's axis and mask = W.valid or all-true", v.f,
